@@ -2,6 +2,7 @@ import MosnVerif.Lemmas.FilterComplete
 import MosnVerif.Gen.ProxyTerminate
 import MosnVerif.Lemmas.FilterInst
 import MosnVerif.Lemmas.FilterRegs
+import MosnVerif.Lemmas.FilterFinish
 /-!
 # C14 — stream filters run in order, and a denied request is never forwarded (property theorems only)
 
@@ -75,26 +76,46 @@ theorem sendRun_all (fs : List SFilter) (i : Nat) (h : ∀ f ∈ fs, continues (
 /-- **the worker always returns**: the model run is finished after `fuel` iterations (the task of `OnReceive` returned) -/
 theorem worker_returns (c : Cfg) : (final c).halted = true := final_halted c
 
-/-- **single_reply** (partial: the hypothesis `exhausted = false` excludes the streams the worker abandons after 10 calls
-of `receive` — see the finding in KNOWN_FINDINGS.txt and the witness below; full statement: without that hypothesis).
+/-- **never_abandoned** ([proxy8], the repaired task loop of `OnReceive`): at no point of any run — any chain, any verdict
+vectors (a filter may ask for re-match-route / re-choose-host any number of times, for ever), any environment — has the worker
+left with the stream unfinished: when the loop's budget of 10 calls of `receive` is used up, what follows the loop
+(regenerated: `onReentryExhausted`) answers with the internal-error reply unless a local reply / the one-way clean up is
+already pending, and every return of `receive` in the finishing pass is `End`.  (Before the repair `exhaustFinishes` is
+regenerated as false and this theorem does not build.) -/
+theorem never_abandoned (c : Cfg) (n : Nat) : (run c n init).exhausted = false := never_exhausted c n
+
+/-- **single_reply** (full statement — the budget exclusion `exhausted = false` of the earlier `single_reply_partial` is gone).
 When a receiver filter answered the request (hijack / direct response), no filter returned the termination status and
 the request is not one-way, then the finished stream's response side is exactly: one full run of the sender filters,
 then the downstream sender calls of THE answer — the headers with the status code and, iff the answer has a body, one
 data call — where the answer is the fold of the filters' handler calls in invocation order (`replyOf`: the last
-hijack / direct response wins). -/
-theorem single_reply_partial (c : Cfg) (ha : answeredIn (trace c)) (hnt : ¬ terminatedIn (trace c))
-    (hno : c.env.oneway = false) (hex : (final c).exhausted = false) :
+hijack / direct response wins) — also when the filters asked for re-match / re-choose nine times or more before. -/
+theorem single_reply (c : Cfg) (ha : answeredIn (trace c)) (hnt : ¬ terminatedIn (trace c))
+    (hno : c.env.oneway = false) :
     ∃ r code, replyOf (recvVerdicts (trace c)) (none, none) = (some r, code) ∧
       backPart (trace c) = .spass 0 (sendRun c.send 0) :: replyEvs r code := by
   -- an answered request is never retried (deny_not_forwarded): the model run is complete
   have hrt : (final c).retried = false := (deny_noUp_noRetry c fuel (answeredIn_deny ha)).2
-  exact single_reply_of c (final c) (run_Ginv c fuel init (init_Ginv c)) (final_halted c) ha hnt hno hex hrt
+  exact single_reply_of c (final c) (run_Ginv c fuel init (init_Ginv c)) (final_halted c) ha hnt hno
+    (never_exhausted c fuel) hrt
+
+/-- **outcome_total** (C14's machine): every finished run that was not handed to the retry path (whose continuation is
+C03/C17's machine) ended the stream — cleaned, and terminated by a filter, one-way, or answered with one complete reply
+after one full run of the sender filters (`DoneOK c v` = `v.f.cleaned = true ∧ (terminatedIn v.trace ∨ c.env.oneway = true ∨
+∃ r, v.f.resp = some r ∧ backPart v.trace = .spass 0 (sendRun c.send 0) :: replyEvs r v.f.statusVar)`).  No budget exclusion. -/
+theorem outcome_total (c : Cfg) (hrt : (final c).retried = false) : DoneOK c (final c).view := by
+  have hG : Ginv c (final c) := run_Ginv c fuel init (init_Ginv c)
+  have hex : (final c).exhausted = false := never_exhausted c fuel
+  rcases (hG.done (final_halted c)).2 with h | h | h
+  · rw [hex] at h; cases h
+  · rw [hrt] at h; cases h
+  · exact h
 
 /-- **reply_body_own** (two answering filters): whatever an earlier filter's answer left in the stream — the body of a
 `SendHijackReplyWithBody`, or nothing — the answer of a LATER filter replaces it completely: after a header-only
 `SendHijackReply` the stream holds no data and no trailers, after `SendHijackReplyWithBody` exactly that reply's own data,
 after `SendDirectResponse(headers, nil, nil)` none.  The effects of the three handler calls on the held data / trailers are
-regenerated (`Gen.ProxyReply`); together with `single_reply_partial` (the reply sent is the last answer, with a data call
+regenerated (`Gen.ProxyReply`); together with `single_reply` (the reply sent is the last answer, with a data call
 iff THAT answer has a body) every downstream data event belongs to the answer whose headers were sent. -/
 theorem reply_body_own (s : FState) (earlier : Act) (k : Nat) :
     (applyAct (applyAct s earlier) (.hijack k false)).resp = some ⟨false, false⟩ ∧
@@ -124,10 +145,10 @@ theorem spec_safety_holds_on_model (c : Cfg) (n : Nat) : specSafety c (flat (run
   specSafety_run c n
 
 /-- **the whole executable predicate holds of the finished model run**, single_reply included, for every
-configuration the worker does not abandon (see `single_reply_partial`). -/
-theorem spec_holds_on_model (c : Cfg) (hex : (final c).exhausted = false) (hrt : (final c).retried = false) :
+configuration (the worker abandons none: `never_abandoned`) whose request is not handed to the retry path. -/
+theorem spec_holds_on_model (c : Cfg) (hrt : (final c).retried = false) :
     spec c (flat (trace c)) = true :=
-  spec_final c hex hrt
+  spec_final c (never_exhausted c fuel) hrt
 
 /-- **the model is closed**: its two escape hatches — the `unmodelled` marker (Retry phase, phase out of range, no
 upstream request at DownRecvHeader) and a worker blocked forever in `waitNotify` — are unreachable for every
@@ -142,8 +163,8 @@ theorem annot_reproduces_model (c : Cfg) (n : Nat) :
     annot c ((flat (run c n init).trace).map Obs.raw) = flat (run c n init).trace := annot_flat c n
 
 theorem agree_implies_spec (c : Cfg) (impl : List Raw) (h : impl = (flat (final c).trace).map Obs.raw)
-    (hex : (final c).exhausted = false) (hrt : (final c).retried = false) : spec c (annot c impl) = true := by
-  rw [h, annot_flat_final]; exact spec_final c hex hrt
+    (hrt : (final c).retried = false) : spec c (annot c impl) = true := by
+  rw [h, annot_flat_final]; exact spec_final c (never_exhausted c fuel) hrt
 
 /-! ### non-vacuity: concrete chains (the repaired defect, a re-match that resumes, a forwarded request) -/
 
@@ -159,7 +180,7 @@ theorem exDeny_trace : trace exDeny =
      .rpass .AfterRoute 0 [(0, ⟨.hijack 403 false, .Continue⟩), (1, ⟨.none, .ReMatchRoute⟩)],
      .spass 0 [(0, .Continue), (1, .Continue)], .dh (some 403) true] := by decide +kernel
 
--- hypotheses of deny_not_forwarded / single_reply_partial are satisfiable, and their conclusions are what one expects
+-- hypotheses of deny_not_forwarded / single_reply are satisfiable, and their conclusions are what one expects
 example : Ev.rpass .AfterRoute 0 [(0, ⟨.hijack 403 false, .Continue⟩), (1, ⟨.none, .ReMatchRoute⟩)] ∈ trace exDeny ∧
     (⟨.hijack 403 false, .Continue⟩ : Verdict).isDeny = true := by rw [exDeny_trace]; decide
 example : answeredIn (trace exDeny) ∧ ¬ terminatedIn (trace exDeny) ∧ exDeny.env.oneway = false ∧
@@ -261,32 +282,74 @@ example : trace exWrongPhase =
      .rpass .AfterChooseHost 0 [],
      .up false, .spass 0 [], .dh (some 200) false, .dd true] := by decide +kernel
 
-/-- **negation witness of the unrestricted single_reply** (finding): a filter that asks nine times for re-match and
-then answers 403 is invoked ten times; the tenth call of `receive` returns `UpFilter` to a task loop that has run out of
-iterations: the stream is answered by nobody and never cleaned. -/
+/-- **the repaired defect** (finding → `fixed:`): a filter that asks nine times for re-match and then answers 403 is invoked
+ten times; the tenth call of `receive` returns `UpFilter` to a task loop that has run out of iterations.  Before the repair
+the task returned there (stream answered by nobody, never cleaned); now the finishing pass sends the 403. -/
 def exExhaust : Cfg :=
   { recv := [⟨.AfterRoute, List.replicate 9 ⟨.none, .ReMatchRoute⟩ ++ [⟨.hijack 403 false, .Stop⟩]⟩],
     send := [⟨[]⟩], env := envOK }
 
-example : (final exExhaust).exhausted = true ∧ (final exExhaust).cleaned = false ∧
-    backPart (trace exExhaust) = [] ∧ (recvVerdicts (trace exExhaust)).length = 10 ∧
-    (⟨.hijack 403 false, .Stop⟩ : Verdict) ∈ recvVerdicts (trace exExhaust) := by decide +kernel
+example : (final exExhaust).exhausted = false ∧ (final exExhaust).cleaned = true ∧
+    backPart (trace exExhaust) = [.spass 0 [(0, .Continue)], .dh (some 403) true] ∧
+    (recvVerdicts (trace exExhaust)).length = 10 := by decide +kernel
 
-example : ¬ (∀ c : Cfg, answeredIn (trace c) → ¬ terminatedIn (trace c) → c.env.oneway = false →
-    ∃ r code, backPart (trace c) = .spass 0 (sendRun c.send 0) :: replyEvs r code) := by
-  intro h
-  have hb : backPart (trace exExhaust) = [] := by decide +kernel
-  have ha : answeredIn (trace exExhaust) :=
-    ⟨⟨.hijack 403 false, .Stop⟩, by decide +kernel, rfl⟩
-  have hrv : recvVerdicts (trace exExhaust) = List.replicate 9 ⟨.none, .ReMatchRoute⟩ ++ [⟨.hijack 403 false, .Stop⟩] := by
-    decide +kernel
-  have hsp : ∀ e ∈ trace exExhaust, isSpass e = false := by decide +kernel
-  have hnt : ¬ terminatedIn (trace exExhaust) := by
-    rintro (⟨v, hv, ht⟩ | ⟨st, invs, hm, _⟩)
-    · rw [hrv] at hv; simp at hv; rcases hv with ⟨_, rfl⟩ | rfl <;> cases ht
-    · have := hsp _ hm; cases this
-  obtain ⟨r, code, hx⟩ := h exExhaust ha hnt rfl
-  rw [hb] at hx; cases hx
+/-- a filter that asks for re-match for ever: ten passes, then the internal-error reply (500) — after the sender filters,
+nothing sent upstream, stream cleaned; the same for re-choose-host, and for a one-way request (cleaned, no reply) -/
+def exForever : Cfg :=
+  { recv := [⟨.AfterRoute, List.replicate 40 ⟨.none, .ReMatchRoute⟩⟩], send := [⟨[]⟩], env := envOK }
+
+example : (final exForever).exhausted = false ∧ (final exForever).cleaned = true ∧
+    backPart (trace exForever) = [.spass 0 [(0, .Continue)], .dh (some 500) true] ∧
+    (recvVerdicts (trace exForever)).length = 10 ∧ (∀ e ∈ trace exForever, isUp e = false) := by decide +kernel
+
+example : (final { exForever with recv := [⟨.AfterChooseHost, List.replicate 40 ⟨.none, .ReChooseHost⟩⟩] }).cleaned = true ∧
+    backPart (trace { exForever with recv := [⟨.AfterChooseHost, List.replicate 40 ⟨.none, .ReChooseHost⟩⟩] }) =
+      [.spass 0 [(0, .Continue)], .dh (some 500) true] ∧
+    (final { exForever with env := { envOK with oneway := true } }).cleaned = true ∧
+    backPart (trace { exForever with env := { envOK with oneway := true } }) = [] := by decide +kernel
+
+/-- … on a route whose retry policy makes every 5xx retriable the internal-error reply is not retried either -/
+example : (final { exForever with env := envRetry }).retried = false ∧ (final { exForever with env := envRetry }).cleaned = true ∧
+    backPart (trace { exForever with env := envRetry }) = [.spass 0 [(0, .Continue)], .dh (some 500) true] := by decide +kernel
+
+/-! ### [proxy8] the label `reset during UpFilter`
+
+`Env.upfReset` adds to the schedules of this machine the event the shared downstream machine got with the last repair
+(`upResetL` enabled while `upfRunning`): the upstream stream of the accepted streamed response is reset while the worker runs
+the sender filters; the `processError` that ends the UpFilter `case` finds it at `s.phase == UpFilter`.  Every theorem above
+(`order`, `once_receive`, `resume`, `deny_not_forwarded`, `once_send`, `single_reply`, `outcome_total`, `never_abandoned`,
+`complete`, the predicate theorems) is stated for every `Cfg` and therefore quantifies over the schedules containing it. -/
+
+/-- the event needs an upstream stream; its enabling condition "no deny in the trace" is implied by "admitted upstream"
+(`deny_not_forwarded`), i.e. the guard never suppresses an event that could happen -/
+theorem upf_guard_redundant (c : Cfg) (n : Nat) (h : (run c n init).trace.any isUpAdmitted = true) :
+    ¬ DenyIn (run c n init).trace := by
+  intro hd
+  have hno := deny_noUp c n hd
+  obtain ⟨e, he, ha⟩ := List.any_eq_true.mp h
+  have := hno e he
+  cases e <;> simp [isUpAdmitted, isUp] at ha this
+
+/-- a streamed 200 whose upstream stream is reset during the sender pass -/
+def envUpf : Env :=
+  { route := fun _ => .found, host := fun _ => true, poolFail := false, up := .resp 200 true false, upfReset := true }
+
+/-- not retried (no retry policy): the error reply of the reset reason replaces the response — after the ONE sender pass, one
+reply, stream cleaned (on the code before a3a21969e the worker left here without reply) -/
+example : trace { recv := [⟨.AfterRoute, []⟩], send := [⟨[]⟩], env := envUpf } =
+    [.rpass .BeforeRoute 0 [], .rpass .AfterRoute 0 [(0, {})], .rpass .AfterChooseHost 0 [], .up false,
+     .spass 0 [(0, .Continue)], .dh (some 502) true] ∧
+    (final { recv := [⟨.AfterRoute, []⟩], send := [⟨[]⟩], env := envUpf }).cleaned = true := by decide +kernel
+
+/-- … with a retriable reason and a retry policy the request is handed to the retry path (nothing was sent downstream) -/
+def envUpfRetry : Env :=
+  { envUpf with resetReason := "ConnectionTermination", pol := { disabled := false, retryOn := true, numRetries := 1 } }
+
+example : (final { recv := [], send := [⟨[]⟩], env := envUpfRetry }).retried = true := by decide +kernel
+
+/-- … and after a deny the event does not exist: the filter's 403 is the reply -/
+example : backPart (trace { recv := [⟨.AfterRoute, [⟨.hijack 403 false, .Stop⟩]⟩], send := [⟨[]⟩], env := envUpf }) =
+    [.spass 0 [(0, .Continue)], .dh (some 403) true] := by decide +kernel
 
 /-! ## many streams: filter INSTANCES and configuration UPDATES (`Model/FilterInst.lean`)
 
